@@ -24,6 +24,9 @@ ALLOWED_AXIOMS = {'propext', 'Classical.choice', 'Quot.sound'}
 FORBIDDEN = re.compile(r'\bsorry\b|\badmit\b|^\s*axiom\s|native_decide|bv_decide|implemented_by|\bunsafe\s|maxHeartbeats\s+0\b')
 
 
+MAX_CRASHES = 8
+
+
 class HarnessError(Exception):
     """The machinery itself failed (exit code 2)."""
 
@@ -225,6 +228,11 @@ def run_real(pid, cases, nworkers=None, env=None, timeout=3000):
         attempt = 0
         while pos < hi:
             attempt += 1
+            if attempt > MAX_CRASHES + 1:
+                # the real code keeps crashing: do not burn the time budget on restarts
+                for k in range(pos, hi):
+                    results[k] = {'err': 'NotRun', 'msg': 'skipped after %d crashes of the real code' % MAX_CRASHES}
+                break
             fin = os.path.join(tmpdir, 'in_%d_%d.jsonl' % (w, attempt))
             fout = os.path.join(tmpdir, 'out_%d_%d.jsonl' % (w, attempt))
             with open(fin, 'w') as fh:
